@@ -926,6 +926,11 @@ func (r *reference) judge(o Op, res result) *failure {
 			if !errors.Is(res.err, errdef.ErrMissingReference) {
 				return fail("tag-empty", "tag with empty reference: %s", res.tok)
 			}
+		case r.kind == "oci" && isDigestRef(u, o.Ref) && o.Ref != string(d.Digest):
+			run.Count("oci/pattern/tag-foreign-digest")
+			if !errors.Is(res.err, errdef.ErrInvalidReference) {
+				return fail("tag-foreign-digest", "tag %s with the digest string of other content: %s, want invalid-reference", o, res.tok)
+			}
 		case !present:
 			if !errors.Is(res.err, errdef.ErrNotFound) {
 				return fail("tag-absent", "tag of absent content %s: %s, want not-found", o, res.tok)
@@ -1185,7 +1190,10 @@ func genOp(r *common.Rand, u *universe, kind string, h *hint) Op {
 		case x == 0:
 			o.Ref = ""
 		case x <= 2:
-			o.Ref = string(u.g.Nodes[node].Desc.Digest) // its own digest string, never another node's
+			o.Ref = string(u.g.Nodes[node].Desc.Digest) // its own digest string
+		case x == 3 && kind == "oci":
+			// another node's digest string: Store.Tag must refuse it (a digest addresses content)
+			o.Ref = string(u.g.Nodes[r.Intn(n)].Desc.Digest)
 		default:
 			o.Ref = common.Pick(r, u.refs)
 			if len(h.tagged) > 0 && r.Chance(1, 2) {
@@ -1692,7 +1700,7 @@ func main() {
 	// failure of the run (layer R), not a silent pass
 	floors := map[string]int{
 		"mem/P/ok": 100, "oci/P/ok": 100, "file00/P/ok": 100, "file01/P/ok": 100, "file10/P/ok": 20, "file11/P/ok": 20,
-		"oci/D/ok": 20, "oci/U/ok": 5, "oci/L/L": 20, "oci/pattern/delete-after-retag": 5, "oci/pattern/tags-last": 10,
+		"oci/D/ok": 20, "oci/U/ok": 5, "oci/L/L": 20, "oci/pattern/delete-after-retag": 5, "oci/pattern/tags-last": 10, "oci/pattern/tag-foreign-digest": 5,
 		"oci/AutoSaveIndex=false": 20, "oci/AutoSaveIndex=true": 20,
 		"file/pattern/restore-fails-traversal": 3, "file/alias-tainted-histories": 5,
 		"race-mem/successes=1": 20, "race-file00/successes=1": 20, "conc-mem/P": 50, "conc-oci/P": 50, "conc-file00/P": 50,
